@@ -1,6 +1,13 @@
 (* C11 - parsing is insensitive to inter-token whitespace and keyword letter case.
-   The property is FALSE of the library at full strength (the *_refuted theorems); what holds is
-   stated layer by layer.  Definitions: Split/Skeleton.v, Group/Skel.v, Lexer/WsRun.v. *)
+   The property is FALSE of the library at full strength (the *_refuted theorems that remain); what holds is
+   stated layer by layer.  Three `fix:` commits in /repo (group_functions reads value.upper() == 'AS'; the
+   splitter reads value.split()[0].upper() == 'GO'; Token.normalized and the splitter's `unified` collapse the
+   white space inside compound keywords) removed the guards on the spelling of AS / GO / END IF / ORDER BY /...:
+   the former refutation witnesses are now positive examples (Inst/C11Wit.v, Inst/C11Group.v).  Definitions: Split/Skeleton.v, Group/Skel.v, Lexer/WsRun.v. *)
+(* source pins: the functions of /repo the hand-written models in this file's cone mirror have the normalised AST they
+   were written from (tools/regen/gen_srcpins.py; a changed function breaks its Gen/Pin_*.v and this file with it) *)
+From SqlModel.Gen Require Pin_sql_tree Pin_sql_clauses Pin_api_glue.
+From SqlModel.Inst Require PassTabOk.   (* the grouping tables and driver pins of Group/Passes.v equal the ones regenerated from the source *)
 From SqlModel.Gen Require LexPins.   (* the scan loop, is_keyword, consume and the class-level state of sqlparse/lexer.py have the pinned shape *)
 From SqlModel.Props Require C11g.   (* letter case: all 25 grouping passes and parse, unbounded *)
 From SqlModel Require Import Base PyStr Re Lexer SplitDefs Splitter Node Passes MatchSpec.
@@ -38,13 +45,19 @@ Proof. exact C11Multi.C11_multiword_fin. Qed.
 Print Assumptions C11_multiword_fin.
 
 (* ---- splitter ---------------------------------------------------------------------------------- *)
-(* guarded skeleton relation (same significant tokens up to keyword case / inner whitespace, where
-   END IF|FOR|WHILE and GO are spelled as the tables compare them, and runs before a single-line
-   comment agree on containing a line break): same statements over significant tokens *)
-Theorem C11_split : forall l l', skelb l l' = true ->
+(* THE skeleton relation (same significant tokens up to keyword case / inner whitespace, whitespace runs
+   non-empty at the same places) with NO guard on the spelling of any keyword; the one remaining guard is about
+   single-line comments after a terminator (finding C11-comment-after-terminator, refuted below): the runs in
+   front of such a comment agree on containing a line break *)
+Theorem C11_split : forall l l', skel0b l l' = true -> brk_agreeb l l' = true ->
   stmt_sigs (cur_process l) = stmt_sigs (cur_process l').
-Proof. exact split_skelb_invariant. Qed.
+Proof. exact split_skel0_invariant. Qed.
 Print Assumptions C11_split.
+
+(* the spelling guard of the earlier versions of this file follows from the relation *)
+Theorem C11_split_guard_free : forall a b, tok_skelb false a b = true -> tok_skelb true a b = true.
+Proof. exact (tok_skelb_any true). Qed.
+Print Assumptions C11_split_guard_free.
 
 (* ... even when whitespace runs appear or vanish *)
 Theorem C11_split_any_support : forall l l', skel_splitb l l' = true ->
@@ -52,66 +65,38 @@ Theorem C11_split_any_support : forall l l', skel_splitb l l' = true ->
 Proof. exact (split_skel_invariant false). Qed.
 Print Assumptions C11_split_any_support.
 
-(* letter case, from text to statements: re-casing inside keyword tokens, GO excepted *)
+(* letter case, from text to statements: re-casing inside keyword tokens (any of them, GO included) *)
 Theorem C11_case_split : forall t t' l l',
-  Forall2 CaseDefs.Rcase t t' -> cur_lex t = Ok l -> cur_lex t' = Ok l' -> Forall2 case_guard l l' ->
+  Forall2 CaseDefs.Rcase t t' -> cur_lex t = Ok l -> cur_lex t' = Ok l' -> Forall2 C11Case.kw_only l l' ->
   map fst l = map fst l' /\ stmt_sigs (cur_process l) = stmt_sigs (cur_process l').
-Proof. exact C11Case.C11_case_split. Qed.
+Proof. exact C11Case.C11_case_split_full. Qed.
 Print Assumptions C11_case_split.
 
 (* ---- grouping: _group_matching (Parenthesis, SquareBrackets, Case, If, For, Begin) --------------- *)
-Theorem C11_group_matching : forall c n n', nospace_cls c = true ->
+(* every class, If ('END IF') and For ('END LOOP') included: Token.match compares Token.normalized, which
+   depends on a keyword's value only through its key (upper-cased, inner whitespace collapsed) *)
+Theorem C11_group_matching : forall c n n',
   shape n = shape n' -> shape (stack_match_rec c n) = shape (stack_match_rec c n').
 Proof. exact SkelFacts.C11_group_matching. Qed.
 Print Assumptions C11_group_matching.
 
-Theorem C11_group_matching_pass : forall c n n' m m', nospace_cls c = true ->
+Theorem C11_group_matching_pass : forall c n n' m m',
   shape n = shape n' -> group_matching c n = Ok m -> group_matching c n' = Ok m' -> shape m = shape m'.
 Proof.
-  intros c n n' m m' Hc. apply (group_matching_shape_inv' kap0 c (kd0 c)).
+  intros c n n' m m'. apply (group_matching_shape_inv' kap0 c (kd0 c)).
   intros ty v W. apply kd0_spec; assumption.
 Qed.
 Print Assumptions C11_group_matching_pass.
 
-(* lexed streams related by the guarded skeleton: same statements, and trees of the same shape after
+(* lexed streams related by the skeleton: same statements, and trees of the same shape after
    a bracket-matching pass on each freshly built statement *)
-Theorem C11_split_then_match : forall c l l', nospace_cls c = true -> skelb l l' = true ->
+Theorem C11_split_then_match : forall c l l', skelb l l' = true ->
   map (fun s => shape (stack_match_rec c (statement_of s))) (cur_process l)
   = map (fun s => shape (stack_match_rec c (statement_of s))) (cur_process l').
 Proof. exact SkelFacts.C11_split_then_match. Qed.
 Print Assumptions C11_split_then_match.
 
-(* for If / For (closing keywords END IF, END LOOP): under the guard that corresponding leaves are
-   classified alike by the pass *)
-Theorem C11_group_matching_guarded : forall c n n',
-  gshape c n = gshape c n' -> gshape c (stack_match_rec c n) = gshape c (stack_match_rec c n').
-Proof. exact SkelFacts.C11_group_matching_guarded. Qed.
-Print Assumptions C11_group_matching_guarded.
-
-(* ---- the full property is false: witnesses ------------------------------------------------------ *)
-Theorem C11_order_by_ws_refuted :
-  respelling w_order_by_a w_order_by_b /\ parse_shapes w_order_by_a <> parse_shapes w_order_by_b.
-Proof. exact C11Wit.C11_order_by_ws_refuted. Qed.
-Theorem C11_union_all_ws_refuted :
-  respelling w_union_all_a w_union_all_b /\ parse_shapes w_union_all_a <> parse_shapes w_union_all_b.
-Proof. exact C11Wit.C11_union_all_ws_refuted. Qed.
-Theorem C11_end_if_ws_refuted :
-  respelling w_end_if_a w_end_if_b /\ parse_shapes w_end_if_a <> parse_shapes w_end_if_b.
-Proof. exact C11Wit.C11_end_if_ws_refuted. Qed.
-Theorem C11_end_loop_ws_refuted :
-  respelling w_end_loop_a w_end_loop_b /\ parse_shapes w_end_loop_a <> parse_shapes w_end_loop_b.
-Proof. exact C11Wit.C11_end_loop_ws_refuted. Qed.
-Theorem C11_as_case_refuted :
-  respelling w_as_case_a w_as_case_b /\ parse_shapes w_as_case_a <> parse_shapes w_as_case_b.
-Proof. exact C11Wit.C11_as_case_refuted. Qed.
-Theorem C11_go_case_refuted :
-  respelling w_go_case_a w_go_case_b
-  /\ length (split_sigs w_go_case_a) = 2 /\ length (split_sigs w_go_case_b) = 1.
-Proof. exact C11Wit.C11_go_case_refuted. Qed.
-Theorem C11_split_end_if_ws_refuted :
-  respelling w_split_end_if_a w_split_end_if_b
-  /\ length (split_sigs w_split_end_if_a) = 2 /\ length (split_sigs w_split_end_if_b) = 1.
-Proof. exact C11Wit.C11_split_end_if_ws_refuted. Qed.
+(* ---- the full property is false: the witnesses that remain ---------------------------------------- *)
 Theorem C11_comment_after_semi_refuted :
   respelling w_comment_nl_a w_comment_nl_b
   /\ map (@length _) (split_sigs w_comment_nl_a) = [4; 2]
@@ -122,5 +107,30 @@ Theorem C11_go_n_lex_refuted :
   /\ skel0b (lexed w_go_n_a) (lexed w_go_n_b) = false
   /\ length (sig (lexed w_go_n_a)) = 5 /\ length (sig (lexed w_go_n_b)) = 6.
 Proof. exact C11Wit.C11_go_n_lex_refuted. Qed.
-Print Assumptions C11_order_by_ws_refuted.
+Print Assumptions C11_comment_after_semi_refuted.
 Print Assumptions C11_go_n_lex_refuted.
+
+(* ---- the witnesses of the repaired defects: now the same shapes / the same statements ---------------- *)
+Theorem C11_order_by_ws_same :
+  respelling w_order_by_a w_order_by_b /\ parse_shapes w_order_by_a = parse_shapes w_order_by_b.
+Proof. exact C11Wit.C11_order_by_ws_same. Qed.
+Theorem C11_union_all_ws_same :
+  respelling w_union_all_a w_union_all_b /\ parse_shapes w_union_all_a = parse_shapes w_union_all_b.
+Proof. exact C11Wit.C11_union_all_ws_same. Qed.
+Theorem C11_end_if_ws_same :
+  respelling w_end_if_a w_end_if_b /\ parse_shapes w_end_if_a = parse_shapes w_end_if_b.
+Proof. exact C11Wit.C11_end_if_ws_same. Qed.
+Theorem C11_end_loop_ws_same :
+  respelling w_end_loop_a w_end_loop_b /\ parse_shapes w_end_loop_a = parse_shapes w_end_loop_b.
+Proof. exact C11Wit.C11_end_loop_ws_same. Qed.
+Theorem C11_as_case_same :
+  respelling w_as_case_a w_as_case_b /\ parse_shapes w_as_case_a = parse_shapes w_as_case_b.
+Proof. exact C11Wit.C11_as_case_same. Qed.
+Theorem C11_go_case_same :
+  respelling w_go_case_a w_go_case_b
+  /\ length (split_sigs w_go_case_a) = 2 /\ split_sigs w_go_case_a = split_sigs w_go_case_b.
+Proof. exact C11Wit.C11_go_case_same. Qed.
+Theorem C11_split_end_if_ws_same :
+  respelling w_split_end_if_a w_split_end_if_b
+  /\ length (split_sigs w_split_end_if_a) = 2 /\ split_sigs w_split_end_if_a = split_sigs w_split_end_if_b.
+Proof. exact C11Wit.C11_split_end_if_ws_same. Qed.
